@@ -67,8 +67,9 @@ other, the fallbacks are locked once exactly while the repository is locked -/
 structure Repo.Inv (s : Repo) : Prop where
   cf : s.cf.Inv
   excl : s.wcount = 0 ∨ s.cf.count = 0
-  fb_locked : s.fb = if 0 < s.depth then 1 else 0
-  fb_bal : Balanced s.fbLog (decide (0 < s.fb))
+  fb_pos : 0 < s.depth → s.fb = 1
+  fb_zero : s.depth = 0 → s.fb = 0
+  fb_bal : Balanced s.fbLog (decide (0 < s.depth))
 
 structure Branch.Inv (s : Branch) : Prop where
   cf : s.cf.Inv
@@ -149,7 +150,10 @@ theorem CL.inv_step {s : CL} (h : s.Inv) (o : Op) : (s.step o).1.Inv := by
         simp only [Phys.unlock, Option.isSome_none]
         rw [← h1, hm] at h3
         exact h3.release
-      · next hc1 => exact ⟨h1, by constructor <;> intro <;> [omega; exact h2.mpr (by omega)], h3⟩
+      · next hc1 =>
+        refine ⟨h1, ⟨fun _ => ?_, fun _ => h2.mpr (by omega)⟩, h3⟩
+        show 0 < s.count - 1
+        omega
 
 theorem CL.inv_run {s : CL} (h : s.Inv) (ops : List Op) : (s.run ops).Inv := by
   induction ops generalizing s with
@@ -204,7 +208,10 @@ theorem LF.inv_step {s : LF} (h : s.Inv) (o : Op) : (s.step o).1.Inv := by
     · exact ⟨h1, ht, h2, h3⟩
     · next hm =>
       split
-      · next hc => exact ⟨h1, ht, by constructor <;> intro <;> [omega; exact h2.mpr (by omega)], h3⟩
+      · next hc =>
+        refine ⟨h1, ht, ⟨fun _ => ?_, fun _ => h2.mpr (by omega)⟩, h3⟩
+        show 0 < s.count - 1
+        omega
       · next hc =>
         split
         · exact ⟨h1, ht, h2, h3⟩
